@@ -6,6 +6,7 @@
 #include <cstdlib>
 #include <cstring>
 #include <cstddef>
+#include <sys/mman.h>
 
 #if defined(__has_feature)
 #if __has_feature(address_sanitizer)
@@ -24,6 +25,26 @@
 namespace vf { inline volatile unsigned long vf_progress = 0; inline void vfTick() { vf_progress = vf_progress + 1; } }
 
 namespace vf {
+// A read-only source buffer: the bytes sit at the end of pages that are made read-only after filling and are followed by an
+// inaccessible page - what a `const` table in flash is to a library that is handed a pointer to const.  A store into it, or a
+// read behind it, faults (ASan reports the SEGV and the case is dumped).
+struct RoBuf {
+    char *map = nullptr; size_t mapLen = 0; char *p = nullptr;
+    RoBuf(const void *src, size_t n) {
+        vf::vfTick();
+        size_t pg = 4096, data = ((n + 7) / 8 * 8 + pg - 1) / pg * pg; if (data == 0) data = pg;
+        mapLen = data + pg;
+        map = (char *) mmap(nullptr, mapLen, PROT_READ | PROT_WRITE, MAP_PRIVATE | MAP_ANONYMOUS, -1, 0);
+        if (map == MAP_FAILED) { map = nullptr; abort(); }
+        p = map + data - (n + 7) / 8 * 8;
+        if (n) memcpy(p, src, n);
+        mprotect(map, data, PROT_READ);
+        mprotect(map + data, pg, PROT_NONE);
+    }
+    ~RoBuf() { if (map) munmap(map, mapLen); }
+    RoBuf(const RoBuf &) = delete;
+};
+
 struct XBuf {
     char *base;
     char *p;
